@@ -134,6 +134,9 @@ def evaluate(ctx, scn):
     run = ctx.run(w)
     ev.hashes.append(run.hash())
     ev.counters["term:" + run.classify()[0]] += 1
+    if run.classify()[0] == "overflow":
+        ev.counters["inconclusive_log_overflow"] += 1
+        return ev
     if len(run.segs) < 2 or secs is None:
         ev.counters["not_started"] += 1
         return ev
